@@ -216,7 +216,7 @@ def oracle(ctx, c, P, which):
         for (cc, tok) in P[i]:
             v = nums.parse_num(tok)
             if isinstance(v, str):
-                kf = ":cancelled_diagonal" if (which == "seq" and c["kind"] == "extended" and i in cancelled_rows(c)) else ""
+                kf = ":cancelled_diagonal" if (((which == "seq" and c["kind"] == "extended") or c["kind"] == "modcls") and i in cancelled_rows(c)) else ""
                 ctx.signal("O", sig + ":finite" + kf, "row %d has a non-finite weight %s" % (i, tok), case=c["line"]); return False
             vals.append((cc, v))
         if states[i] == 1:
@@ -320,7 +320,7 @@ def run(ctx):
                     # points (as hypre does), which is outside the 0/1 splittings the property quantifies over
                     has = set(i for (i, j) in x["mask"])
                     c["states"] = [(-2 if (s_ == 0 and i not in has and rng.random() < 0.7) else s_) for i, s_ in enumerate(x["states"])]
-                if kind == "extended" and x["nv"] == 1 and rng.random() < 0.3:
+                if kind in ("extended", "modcls") and x["nv"] == 1 and rng.random() < (0.3 if kind == "extended" else 0.15):
                     # M-matrix-like but NOT diagonally dominant: on some F rows the diagonal equals minus the sum of the weak
                     # (non-strong) entries, so the modified diagonal of the +i formula cancels to exactly zero when no strong
                     # F neighbour contributes; the weights must stay finite (the routine leaves such a row unscaled)
